@@ -49,6 +49,9 @@ EXTRA_THEOREMS = [
     "readsWithinB_of_cols_subset", "depend_on_is_only_syntactic",
     # regression statements for removed rules (/repo bf65f8a)
     "and_null_not_equivalence", "or_null_not_equivalence",
+    # the order property behind useless-order / sort-agg / merge-join (Thm/C01Order.lean); `is_orderby` and the
+    # analysis' `merge` are pinned (c01_condition_pins.json)
+    "sortRows_id_iff", "sortedBy_prefix", "is_orderby_sound", "class_claim_common_prefix_sound", "class_claim_max_unsound",
 ]
 RULES_JSON = os.path.join(vlib.LEAN, "RlModel/Gen/rules.json")
 DOM = {"N": ["null", "n:0", "n:1", "n:-1", "n:2", "n:3", "n:-2"],
@@ -224,13 +227,13 @@ def run(ck):
     cand += ["C01." + n for n in EXTRA_THEOREMS]
     status = {}
     errs_all = {}
-    for mod, extra in (("RlModel.Thm.C01", ["drv_c01"]), ("RlModel.Thm.C01Plan", []), ("RlModel.Thm.C01PlanPerm", []), ("RlModel.Thm.C01Apply", []), ("RlModel.Thm.C01Congr", []), ("RlModel.Thm.C01CongrJoin", []), ("RlModel.Thm.C01CongrAgg", []), ("RlModel.Thm.C01Cond", [])):
+    for mod, extra in (("RlModel.Thm.C01", ["drv_c01"]), ("RlModel.Thm.C01Plan", []), ("RlModel.Thm.C01PlanPerm", []), ("RlModel.Thm.C01Apply", []), ("RlModel.Thm.C01Congr", []), ("RlModel.Thm.C01CongrJoin", []), ("RlModel.Thm.C01CongrAgg", []), ("RlModel.Thm.C01Order", []), ("RlModel.Thm.C01Cond", [])):
         st, log, errs = vlib.check_lean_obligations(mod, cand, "RlModel", extra)
         for n, v in st.items():
             if n not in status or (v["status"] == "ok" and status[n]["status"] != "ok") or (status[n]["status"] == "missing" and v["status"] != "missing"):
                 status[n] = v
         errs_all.update(errs)
-    forb = vlib.lean_forbidden(vlib.lean_sources("RlModel.Thm.C01") + vlib.lean_sources("RlModel.Thm.C01Plan") + vlib.lean_sources("RlModel.Thm.C01PlanPerm") + vlib.lean_sources("RlModel.Thm.C01Apply") + vlib.lean_sources("RlModel.Thm.C01Congr") + vlib.lean_sources("RlModel.Thm.C01CongrJoin") + vlib.lean_sources("RlModel.Thm.C01CongrAgg") + vlib.lean_sources("RlModel.Thm.C01Cond"))
+    forb = vlib.lean_forbidden(vlib.lean_sources("RlModel.Thm.C01") + vlib.lean_sources("RlModel.Thm.C01Plan") + vlib.lean_sources("RlModel.Thm.C01PlanPerm") + vlib.lean_sources("RlModel.Thm.C01Apply") + vlib.lean_sources("RlModel.Thm.C01Congr") + vlib.lean_sources("RlModel.Thm.C01CongrJoin") + vlib.lean_sources("RlModel.Thm.C01CongrAgg") + vlib.lean_sources("RlModel.Thm.C01Order") + vlib.lean_sources("RlModel.Thm.C01Cond"))
     obligations = {}
     refuted, broken = [], []
     prefuted, pbroken = [], []
